@@ -195,7 +195,18 @@ def tensor_accessor_jobs(check, Q, canon, T, tag):
                         ens.append('self->%s.e[%d] == %s || %s(%s)' % (fld, i, pn, isnan_fn(T), pn))
                     else:
                         ens.append('self->%s.e[%d] == __CPROVER_old(self->%s.e[%d]) || %s(self->%s.e[%d])' % (fld, i, fld, i, isnan_fn(T), fld, i))
-                jobs.append(IeeeJob(check, '%s.%s' % (base, tag), low, f, ensures=ens, assigns='__CPROVER_assigns(self->%s.e[%d])' % (fld, sym), backend='sat'))
+                def pred(w, out, run, pn=pn, sym=sym, nm=nm):
+                    got = out.get('POST self')
+                    a = w.get('self')
+                    if got is None or a is None:
+                        return []
+                    want = list(a)
+                    want[sym] = w[pn][0]
+                    if [Fraction(x) for x in got] != [Fraction(x) for x in want]:
+                        return ['%s(%s) on %s leaves %s; expected %s (slot %d written, the others untouched)' % (
+                            nm, float(w[pn][0]), [float(x) for x in a], [float(x) for x in got], [float(x) for x in want], sym)]
+                    return []
+                jobs.append(IeeeJob(check, '%s.%s' % (base, tag), low, f, ensures=ens, assigns='__CPROVER_assigns(self->%s.e[%d])' % (fld, sym), backend='sat', predicate=pred))
             else:
                 continue
         check.under_contract(f)
